@@ -239,8 +239,11 @@ def run_check(prop, tier, seed):
         print("INFRASTRUCTURE: gen_consts failed:\n" + gen_out)
         return 2
     # 2 ---------------------------------------------------------------- proofs
-    props_file = os.path.join(LEAN_DIR, *prop.LEAN_MODULE.split(".")) + ".lean"
-    obligations = theorem_names_in(props_file)
+    obligations = []
+    for path in import_closure(prop.LEAN_MODULE):
+        if os.sep + "Props" + os.sep in path or os.sep + "Compose" + os.sep in path:
+            if prop.ID in os.path.basename(path) or os.sep + "Compose" + os.sep in path:
+                obligations += theorem_names_in(path)
     ok_build, build_out = lake_build(ctx, [prop.LEAN_MODULE] + list(getattr(prop, "DRIVERS", ["drv_brine"])))
     thms, axioms_seen, discharged = {}, set(), 0
     if ok_build:
